@@ -640,9 +640,12 @@ def ExprWt (sl : List Ty) : Ast.Expr → Prop
   | .bin op l r t _ => ExprWt sl l ∧ ExprWt sl r ∧ (op = .divide ∨ Gen.NumTables.binType op l.ty r.ty = some t)
   | .paren e _ => ExprWt sl e
 
+/-- slots of one CASE item; after `IS` only the six relational operators occur (the parser accepts nothing else) -/
 def CaseSlots (n : Nat) : CaseExpr → Prop
   | .simple e => SlotsBelow n e
-  | .is _ e => SlotsBelow n e
+  | .is op e =>
+    (op = .less ∨ op = .lessOrEqual ∨ op = .equal ∨ op = .greaterOrEqual ∨ op = .greater ∨ op = .notEqual) ∧
+      SlotsBelow n e
   | .range lo hi => SlotsBelow n lo ∧ SlotsBelow n hi
 
 def CondsSlots (n : Nat) : List CaseExpr → Prop
